@@ -635,6 +635,11 @@ func (s *Slice) checkWithHardRecovery(node *NodeInfo, downAfterNoAlive int, seco
 	if err != nil || masterStatus == StatusDown {
 		log.Warn("[ns:%s, %s:%s] check slave status with hard strategy, Get master status: %s, get master err: %v, duration: %v", s.Namespace, s.Cfg.Name, node.Address, masterStatus.String(), err, time.Since(start))
 		if node.IsStatusDown() {
+			// a fused replica stays down until its cool-down has elapsed, also while the master is down
+			if !strategy.AllowRecovery() {
+				log.Warn("[ns:%s, %s:%s] check slave status with hard strategy, still StatusDown in cooldown period, (case master down), duration: %v", s.Namespace, s.Cfg.Name, node.Address, time.Since(start))
+				return
+			}
 			node.SetStatusUp()
 			log.Warn("[ns:%s, %s:%s] check slave status with hard strategy, Marked as StatusUp success, Slave recovered from down, (case master down), duration: %v", s.Namespace, s.Cfg.Name, node.Address, time.Since(start))
 		}
